@@ -182,8 +182,8 @@ class Circle(Shape2D):
         return np.logical_and(
             np.linalg.norm(points, axis=-1) <= self.radius,
             # At present circles are not orientable, so the z position must
-            # match exactly.
-            np.isclose(points[:, 2], 0),
+            # match exactly (up to rounding, relative to the size of the circle).
+            np.isclose(points[:, 2], 0, atol=1e-8 * self.radius),
         )
 
     @property
